@@ -7,6 +7,9 @@ import (
 	_ "verif/internal/props/c03"
 	_ "verif/internal/props/c04"
 	_ "verif/internal/props/c05"
+	_ "verif/internal/props/c06"
+	_ "verif/internal/props/c07"
+	_ "verif/internal/props/c08"
 	_ "verif/internal/props/c09"
 	_ "verif/internal/props/c10"
 	_ "verif/internal/props/c12"
